@@ -151,7 +151,7 @@ StartItem(ps, f, name) ==
                    LET key == FreeKey(name)
                        n   == Len(f.sec.opts) + 1
                    IN SetTop(ps, [f EXCEPT !.sec.opts = Append(@, key), !.oi = n, !.st = 1])
-            ELSE FailD(ps)
+            ELSE FailD(SetTop(ps, f))
      ELSE LET o == f.sec.opts[idx]
               st == IF o.type = "sec" THEN (IF "TITLE" \in o.flags THEN 6 ELSE 5)
                     ELSE IF o.type = "func" THEN 7 ELSE 1
